@@ -107,6 +107,20 @@ def export_trace(tid: str, events: list[dict], keep=TLC_EVENT_KEYS) -> list[str]
         rec.pop("result", None)
         if rec["ev"] == "rpc_begin":
             rec.pop("args", None)
+        if rec["ev"] == "rpc_end" and rec.get("name") == "define_step" and "args" in rec:
+            a = rec["args"]
+            label = a[0] if a[5] == "." else f"{a[0]}  # wd={a[5]}"
+            need = {31: "OPTIONAL", 32: "DEFAULT", 34: "PLAN"}.get(a[6], str(a[6]))
+            res = a[7] if isinstance(a[7], dict) else {}
+            rec["decl"] = {
+                "label": label,
+                "inp": sorted(set(a[1])),
+                "env": sorted(set(a[2])),
+                "out": sorted(set(a[3])),
+                "vol": sorted(set(a[4])),
+                "need": need,
+                "res": sorted([k, int(v)] for k, v in res.items()),
+            }
         lines.append(json.dumps(rec, separators=(",", ":"), sort_keys=True))
     return lines
 
